@@ -42,6 +42,7 @@ func runC04(c *Ctx) {
 	funcFieldsSet(c, pkgGraphql)
 	c13GroupIsolated(c)
 	layoutAgreement(c)
+	genRound2(c)
 	errorOnPath(c)
 	c13Accounting(c)
 	c01ListNull(c)
